@@ -144,4 +144,27 @@ __attribute__((noinline)) void h_f4_predict(void) {
   __verif_check(u.v._primitives[0] >= 0.);
   __verif_check(u.v._primitives[4] >= 0.);
 }
+// ---------------- F5 (Engine B): gradient sweep kernel - the face contribution is added to the left cell and subtracted from the right
+// cell (same term), only along the face normal, and each cell's limiter window is widened by exactly the neighbour's primitive value
+__attribute__((noinline)) void h_f5_gradient_pair(void) {
+  Hydro &hy = g_uh.h;
+  union U2 { HydroVariables v[2]; U2() {} ~U2() {} } u; HydroVariables &L = u.v[0], &R = u.v[1];
+  sym_cell(L); sym_cell(R);
+  double gL[5][3], gR[5][3], WL[10], WR[10], WL0[10], WR0[10];
+  for (int j = 0; j < 5; ++j) for (int k = 0; k < 3; ++k) { gL[j][k] = L._primitive_gradients[j][k]; gR[j][k] = R._primitive_gradients[j][k]; }
+  for (int q = 0; q < 10; ++q) { WL0[q] = WL[q] = nondet_double(); WR0[q] = WR[q] = nondet_double(); }
+  const double dxinv = nondet_double(); __CPROVER_assume(dxinv > 0.);
+  hy.do_gradient_calculation(DIR, L, R, dxinv, WL, WR);
+  for (int j = 0; j < 5; ++j) {
+    const double d = 0.5 * (L._primitives[j] + R._primitives[j]) * dxinv;
+    for (int k = 0; k < 3; ++k) {
+      if (k == DIR) { __verif_check(L._primitive_gradients[j][k] == gL[j][k] + d); __verif_check(R._primitive_gradients[j][k] == gR[j][k] - d); }
+      else { __verif_check(L._primitive_gradients[j][k] == gL[j][k]); __verif_check(R._primitive_gradients[j][k] == gR[j][k]); }
+    }
+    __verif_check(WL[2 * j] == (R._primitives[j] < WL0[2 * j] ? R._primitives[j] : WL0[2 * j]));
+    __verif_check(WL[2 * j + 1] == (WL0[2 * j + 1] < R._primitives[j] ? R._primitives[j] : WL0[2 * j + 1]));
+    __verif_check(WR[2 * j] == (L._primitives[j] < WR0[2 * j] ? L._primitives[j] : WR0[2 * j]));
+    __verif_check(WR[2 * j + 1] == (WR0[2 * j + 1] < L._primitives[j] ? L._primitives[j] : WR0[2 * j + 1]));
+  }
+}
 }
